@@ -121,7 +121,9 @@ class SMCSampler(MCMCSampler):
         """
         if not self.adaptive:
             beta += beta_step
-            if beta >= 1.0:
+            # Snap to 1.0 within half a step: repeatedly adding 1 / n_steps
+            # may fall just short of 1.0 and trigger an extra iteration
+            if beta >= 1.0 - 0.5 * beta_step:
                 beta = 1.0
         else:
             beta_prev = beta
